@@ -163,3 +163,5 @@ def error_on_exception(emit):
         emit.error('\n'.join(('%s: error: %s' % err for err in e.errors)))
     except model.ModelError as e:
         emit.error(str(e))
+    except UnicodeError as e:
+        emit.error("input is not valid utf-8: %s" % e)
